@@ -193,6 +193,19 @@ pub fn test_cell(cell: &RCell, st: &mut Stats) -> R {
             return Err(fail("C17.reconnect_on_established", format!("{sig}/session_changed"), format!("session state changed: {diff:?}")));
         }
         st.class("reconnect_on_established");
+    } else if cell.stage == Stage::Connecting && !cell.as_client && cell.ty == 1 {
+        // a second CONNECT on a transport whose CONNECT was already accepted (CONNACK not sent yet): the status check the
+        // property is anchored in refuses every CONNECT outside the disconnected state [MQTT-3.1.0-2]
+        if delivered || !errors.iter().any(|e| *e == "ProtocolError") {
+            return Err(fail("C17.reconnect_on_established", format!("{sig}/second_connect"), format!("a second CONNECT on the same transport must be a protocol error and not be delivered: {}", brief_list(&events))));
+        }
+        let b: Vec<(String, String)> = before.iter().filter(|(k, _)| SESSION_FIELDS.contains(&k.as_str())).cloned().collect();
+        let a: Vec<(String, String)> = after.iter().filter(|(k, _)| SESSION_FIELDS.contains(&k.as_str())).cloned().collect();
+        let diff = state_diff(&b, &a, &[]);
+        if !diff.is_empty() {
+            return Err(fail("C17.reconnect_on_established", format!("{sig}/second_connect/session_changed"), format!("session state changed: {diff:?}")));
+        }
+        st.class("second_connect_while_connecting");
     } else if established {
         // legitimate in the prepared state: must be delivered (SUBACK/UNSUBACK/PINGRESP need the client-side preparation)
         let needs_client_prep = matches!(cell.ty, 9 | 11);
@@ -314,17 +327,32 @@ fn first_packet_rules(st: &mut Stats) -> R {
                 st.nontrivial(&("first", format!("{role:?}"), ty, v));
             }
         }
-        for level in [0u8, 3, 6, 255] {
-            st.eval();
-            let mut c = new_conn(ConnCfg { role, ver: CVer::Undetermined, idw: 2 });
-            let mut bytes = refcodec::encode(&connect_ap(V::V5, &ConnectArgs { clean: true, keep_alive: 0, p: HsProps::default() }), 2);
-            bytes[8] = level; // fixed header(1) + remaining length(1) + "MQTT" string (6) -> protocol level
-            let calls = recv_all(c.as_mut(), &bytes).map_err(|e| fail("C17.autodetect_version", format!("level{level}/panic"), e))?;
-            let ev = flat(&calls);
-            if ev.iter().any(|e| matches!(e, NEvent::Recv(_))) || !ev.iter().any(|e| matches!(e, NEvent::Error(_))) || c.protocol_version() != "Undetermined" {
-                return Err(fail("C17.autodetect_version", format!("level{level}"), format!("CONNECT with protocol level {level}: {} version now {}", brief_list(&ev), c.protocol_version())));
+        // every protocol level other than 4 and 5, in an otherwise valid CONNECT of either layout
+        for body in [V::V311, V::V5] {
+            for level in (0u8..=255).filter(|l| *l != 4 && *l != 5) {
+                st.eval();
+                let mut c = new_conn(ConnCfg { role, ver: CVer::Undetermined, idw: 2 });
+                let mut bytes = refcodec::encode(&connect_ap(body, &ConnectArgs { clean: true, keep_alive: 0, p: HsProps::default() }), 2);
+                bytes[8] = level; // fixed header(1) + remaining length(1) + "MQTT" string (6) -> protocol level
+                let calls = recv_all(c.as_mut(), &bytes).map_err(|e| fail("C17.autodetect_version", format!("level{level}/panic"), e))?;
+                let ev = flat(&calls);
+                let acted = ev.iter().any(|e| matches!(e, NEvent::Recv(_)));
+                if acted || !ev.iter().any(|e| matches!(e, NEvent::Error(_))) || c.protocol_version() != "Undetermined" {
+                    return Err(fail("C17.autodetect_version", format!("level{level}"), format!("CONNECT ({} layout) with protocol level {level}: {} version now {}", body.name(), brief_list(&ev), c.protocol_version())));
+                }
+                // the connection is still undetermined: a well-formed first CONNECT of either version is adopted afterwards
+                                for v in [V::V311, V::V5] {
+                    let mut d = new_conn(ConnCfg { role, ver: CVer::Undetermined, idw: 2 });
+                    let _ = recv_all(d.as_mut(), &bytes);
+                    let _ = d.closed();
+                    let good = refcodec::encode(&connect_ap(v, &ConnectArgs { clean: true, keep_alive: 0, p: HsProps::default() }), 2);
+                    let ev2 = flat(&recv_all(d.as_mut(), &good).map_err(|e| fail("C17.autodetect_version", format!("level{level}/then_valid/panic"), e))?);
+                    if !ev2.iter().any(|e| matches!(e, NEvent::Recv(AP::Connect { .. }))) {
+                        return Err(fail("C17.autodetect_version", format!("level{level}/then_valid"), format!("after a rejected level {level} and a close, a valid {} CONNECT is not adopted: {}", v.name(), brief_list(&ev2))));
+                    }
+                }
+                st.nontrivial(&("level", format!("{role:?}"), level, body.name()));
             }
-            st.nontrivial(&("level", format!("{role:?}"), level));
         }
     }
     Ok(())
